@@ -14,7 +14,7 @@ From CV Require Import Base.Num C15.GridModel.
 Import ListNotations.
 Local Open Scope Z_scope.
 
-Inductive vkind := KScalar | KVec3 | KUnit3 | KQuat.
+Inductive vkind := KScalar | KVec3 | KUnit3 | KQuat | KVecN (n : nat).   (* KVecN n: colvarvalue::type_vector with n entries *)
 
 Section Meta.
   Context {T : Type} (O : NumOps T).
@@ -59,7 +59,8 @@ Section Meta.
   (* what a run that continues from a state may configure differently: gaussianSigmas / hillWidth, hillWeight,
      newHillFrequency *)
   Record params := mkPar { p_sigmas : list T; p_hill_width : T; p_weight : T; p_freq : Z;
-                           p_gfreq : Z; p_wt : bool; p_bias_temp : T }.
+                           p_gfreq : Z; p_wt : bool; p_bias_temp : T;
+                           p_keep : bool   (* keepHills may be switched OFF for the run that follows (on only if it was on) *) }.
 
   (* one engine step as seen by the bias *)
   Record step_in := mkIn {
@@ -103,9 +104,16 @@ Section Meta.
   Definition tiny14 : T := ndiv O (n1 O) (nofZ O 100000000000000).
   Definition tiny28 : T := ndiv O (n1 O) (nmul O (nofZ O 100000000000000) (nofZ O 100000000000000)).
 
+  (* vector1d: (x - c).norm2(), accumulated from 0 in the order of the entries; 2.0 * (x - c) *)
+  Definition sqsumN (n : nat) (x c : value) : T :=
+    fold_left (fun acc k => nadd O acc (nmul O (nsub O (comp x k) (comp c k)) (nsub O (comp x k) (comp c k)))) (seq 0 n) (n0 O).
+  Definition lgradN (n : nat) (x c : value) : value :=
+    map (fun k => nmul O (nofZ O 2) (nsub O (comp x k) (comp c k))) (seq 0 n).
+
   (* dist2(x, center) *)
   Definition vdist2 (v : var_cfg) (x c : value) : T :=
     match v_kind v with
+    | KVecN n => sqsumN n x c
     | KScalar => nsq O (vdiff v (sc x) (sc c))
     | KVec3 => let d := sub3 c x in dot3 d d                      (* distance_vec::dist2: |x2 - x1|^2 *)
     | KUnit3 => let th := nacos O (clamp1 (dot3 x c)) in nmul O th th   (* colvarvalue::dist2, unit3vector *)
@@ -118,6 +126,7 @@ Section Meta.
   (* dist2_lgrad(x, center): derivative with respect to x, one entry per component *)
   Definition vlgrad (v : var_cfg) (x c : value) : value :=
     match v_kind v with
+    | KVecN n => lgradN n x c
     | KScalar => [nmul O (nofZ O 2) (vdiff v (sc x) (sc c))]
     | KVec3 => scale3 (nofZ O 2) (sub3 x c)                        (* 2 * position_distance(x2, x1) *)
     | KUnit3 =>
@@ -185,7 +194,8 @@ Section Meta.
 
   (* colvar_forces[i].reset(): zero, with the number of components of the variable *)
   Definition vzero (v : var_cfg) : value :=
-    match v_kind v with KScalar => [n0 O] | KQuat => [n0 O; n0 O; n0 O; n0 O] | _ => [n0 O; n0 O; n0 O] end.
+    match v_kind v with KScalar => [n0 O] | KQuat => [n0 O; n0 O; n0 O; n0 O] | KVecN n => repeat (n0 O) n
+                   | _ => [n0 O; n0 O; n0 O] end.
   Definition fzero (vs : list var_cfg) (i : nat) : value :=
     match nth_error vs i with Some v => vzero v | None => [] end.
 
@@ -398,6 +408,13 @@ Section Meta.
               (st_e s) (st_g s) (st_geom s) (st_traj s ++ [h])
     else s.
 
+  (* ---- add_hill, as a function of its own: used for the hills received from the other replicas, which are added to
+     the mirror object of their replica (read_replica_files -> read_hill -> push_back + the test on the margin) ---- *)
+  Definition add_hill (c : cfg) (s : state) (h : hill) : state :=
+    mkState (st_old s) (st_new s ++ [h]) (st_off_old s)
+            (if c_use_grids c && near_hill c (st_geom s) h then st_off_new s ++ [h] else st_off_new s)
+            (st_e s) (st_g s) (st_geom s) (st_traj s ++ [h]).
+
   (* ---- update_grid_data: project_hills(new_hills_begin, end) every grids_freq steps ---- *)
 
   Definition project (c : cfg) (s : state) : state :=
@@ -413,7 +430,19 @@ Section Meta.
   Definition update_grid_data (c : cfg) (s : state) (i : step_in) : state :=
     if i_it i mod c_gfreq c =? 0 then project c s else s.
 
+  (* ---- multiple replicas: the mirror object of another replica holds the hills received from it (MAdd) and is
+     projected onto its own grids, of the same geometry, when those of this replica are (MProj, update_grid_data);
+     calc_energy / calc_forces sum over this replica and the mirrors ---- *)
+  Inductive mirror_event := MAdd (h : hill) | MProj.
+  Definition mirror_apply (c : cfg) (s : state) (e : mirror_event) : state :=
+    match e with MAdd h => add_hill c s h | MProj => if c_use_grids c then project c s else s end.
+
   (* ---- colvarbias_meta::update ---- *)
+
+  Definition total_energy (c : cfg) (own : state) (mirrors : list state) (x : list value) : T :=
+    fold_left (fun acc m => nadd O acc (calc_energy c m x)) mirrors (calc_energy c own x).
+  Definition total_force (c : cfg) (own : state) (mirrors : list state) (x : list value) (k j : nat) : T :=
+    fold_left (fun acc m => nadd O acc (nth j (calc_force c m x k) (n0 O))) mirrors (nth j (calc_force c own x k) (n0 O)).
 
   Definition step_state (c : cfg) (s : state) (i : step_in) : state :=
     let s1 := update_grid_params c s (i_x i) in
@@ -477,7 +506,7 @@ Section Meta.
   (* the configuration of the run that follows an event *)
   Definition with_par (c : cfg) (p : params) : cfg :=
     mkCfg (c_vars c) (c_geom0 c) (p_sigmas p) (p_weight p) (p_hill_width p) (p_freq p) (p_gfreq p) (c_use_grids c)
-          (c_keep c) (p_wt p) (p_bias_temp p) (c_kb c) (c_step_zero c) (c_eb c) (c_eb_equil c) (c_eb_target c).
+          (c_keep c && p_keep p) (p_wt p) (p_bias_temp p) (c_kb c) (c_step_zero c) (c_eb c) (c_eb_equil c) (c_eb_target c).
   Definition next_cfg (c : cfg) (e : event) : cfg := match e with EReconf p => with_par c p | _ => c end.
 
   (* the state is written under the old configuration and read by an instance with the new one (what is read does not
